@@ -55,7 +55,8 @@ def main():
                 if nstates > budget:
                     sel = sorted(ck.rng.sample(sel, budget))
                 for is_set in ([False] if nv > 1 else [True, False]):
-                    embs = ['mid'] if (quick or fam[0] == 'O') else ['mid', 'ext']
+                    # ('ext' puts negative numbers, zero and the extremes among keys and bounds; quick tier: for the sets)
+                    embs = ['mid'] if fam[0] == 'O' else (['ext' if is_set else 'mid'] if quick else ['mid', 'ext'])
                     for emb in embs:
                         plan.append(dict(dump=fn, fam=fam, impl=impl, is_set=is_set, emb=emb, leaf=lf, internal=it,
                                          bounds=list(range(0, nk + 2)), states=sel, shift=0))
